@@ -4,3 +4,4 @@ import FggsProofs.Props.C20
 import FggsProofs.Props.C16
 import FggsProofs.Props.C15
 import FggsProofs.Props.C14
+import FggsProofs.Props.C17
